@@ -120,8 +120,19 @@ func scenC06(r *Run, job *Job) {
 			w.Sup.ExecFail[fmt.Sprintf("extension-e%d-1\x00", cell.party)] = errs[cell.kind]
 		}
 	}
+	// a history: after the recovery, the runtime serving the third invocation exits silently in the middle of it
+	// (the answer must name that fault, not anything remembered from the first one)
+	second := t.Chance(1, 3)
 	e.BehavFor = BehavForExts(exts, func(p *Proc, b *Behav) {
 		ord := w.GenOrdinal(p.Gen)
+		if second && p.IsRT {
+			b.PerInv = func(inv *Invocation) *InvBehav {
+				if inv.N == 3 {
+					return &InvBehav{Mode: "exit", Exit: 3}
+				}
+				return nil
+			}
+		}
 		if cell.party == 0 && p.IsRT {
 			switch {
 			case cell.point == 0 && ord == 1:
@@ -161,6 +172,9 @@ func scenC06(r *Run, job *Job) {
 	})
 	for i := 0; i < 4; i++ {
 		e.Plan = append(e.Plan, InvSpec{Payload: Tagged(fmt.Sprintf("ev%d", i+1), 24)})
+	}
+	if second {
+		desc += " + silent exit during invocation 3"
 	}
 	r.Desc = fmt.Sprintf("C06 cell=%d %s exit=%d exts=%v reorder=%d/%d perm=%d/%d", ci%len(cells), desc, code, exts, r.ReorderNum, r.ReorderDen, e.PermNum, e.PermDen)
 	r.Logf("%s", r.Desc)
